@@ -497,6 +497,13 @@ func sampleIdx(n, max int) []int {
 		}
 		return out
 	}
+	if max < 6 { // first, last and evenly spread ones in between
+		var out []int
+		for k := 0; k < max; k++ {
+			out = append(out, k*(n-1)/(max-1))
+		}
+		return out
+	}
 	seen := map[int]bool{}
 	var out []int
 	add := func(i int) {
